@@ -210,11 +210,11 @@ def plan(tier, seed):
     n = len(c16runner.build_pool(seed))
     solo = solo_results(seed, n)
     fresh = {str(k): v for k, v in solo_fresh(seed, c16runner.build_pool(seed)).items()}
-    nh, length = (16, 200) if tier == 'quick' else (500, 200)
+    nh, length = (16, 200) if tier == 'quick' else (4000, 200)
     per = 1 if tier == 'quick' else 8
     shards = [{'kind': 'history', 'seed': seed, 'solo': solo, 'fresh': fresh, 'histories': list(range(lo, min(nh, lo + per))), 'length': length} for lo in range(0, nh, per)]
     rng = random.Random('c16-hs-%d' % seed)
-    hs = [0, 1, 2, 3] + ([rng.randrange(4, 1 << 31) for _ in range(4)] if tier == 'quick' else list(range(4, 40)) + [rng.randrange(40, 1 << 31) for _ in range(24)])
+    hs = [0, 1, 2, 3] + ([rng.randrange(4, 1 << 31) for _ in range(4)] if tier == 'quick' else list(range(4, 200)) + [rng.randrange(200, 1 << 31) for _ in range(56)])
     hs += ['random'] * (2 if tier == 'quick' else 6)
     cli_ref = cli_probe(0)
     shards += [{'kind': 'hashseed', 'seed': seed, 'solo': solo, 'hashseeds': [h], 'cli_ref': cli_ref} for h in hs]
